@@ -28,6 +28,23 @@ MCChildDom == CASE Dom \in {"small", "full"} -> Full
                 [] Dom \in {"near2", "near2big"} -> {c \in Full : Diff(c) <= 2}
 MCHHDom == IF Dom \in {"small", "near3small", "near2"} THEN {2} ELSE {2, 9}
 
+\* simulation: children drawn at random (half from the full product, half near the base statement)
+\* field-wise biased draws: mostly compatible real statements, some dummies, some conflicts
+Pk(seq) == seq[RandomElement(1 .. Len(seq))]
+RandChild(z) == [asset |-> Pk(<<0, 0, 0, 0, 0, 0, 0, 1>>), out1 |-> Pk(<<0, 1, 1, 3, 3>>), out2 |-> Pk(<<0, 0, 1, 3>>),
+              fee |-> Pk(<<0, 0, 0, 0, 0, 0, 1>>), null |-> Pk(<<1, 2, 3>>), exit1 |-> Pk(<<0, 1, 1, 2>>), exit2 |-> Pk(<<0, 0, 1, 2>>),
+              block |-> Pk(<<0, 0, 1, 1, 1, 1, 1, 1, 2>>), number |-> Pk(<<7, 7, 7, 8>>)]
+SimInit == /\ ch = [k \in Slots |-> Base] /\ hh = [k \in Slots |-> 2]
+           /\ pc = "pick" /\ i = 1 /\ ok = TRUE /\ isDummy = <<>> /\ found = FALSE
+           /\ ref = [block |-> ZeroD, number |-> ZeroF, fee |-> ZeroF]
+           /\ slotExit = <<>> /\ slotAmt = <<>> /\ outSlots = <<>> /\ sel = <<>> /\ out = <<>>
+Pick == /\ pc = "pick"
+        /\ ch' = [k \in Slots |-> RandChild(k)]
+        /\ hh' = [k \in Slots |-> RandomElement({2, 9})]
+        /\ pc' = "flags"
+        /\ UNCHANGED <<i, ok, isDummy, found, ref, slotExit, slotAmt, outSlots, sel, out>>
+SimSpec == SimInit /\ [][Pick \/ Next]_vars
+
 Emit == Finished =>
   PrintT(<<"REPLAY", ToJson([n |-> N, ch |-> ch, hh |-> hh, acc |-> IF ok THEN 1 ELSE 0,
                              out |-> IF ok THEN out ELSE [nslots |-> 0]])>>)
